@@ -155,7 +155,8 @@ class Builder:
         for st in pre:
             self.I.stmt(st, env)
         # find the running offset local (the int declared before the loop) and make it abstract
-        offs = [d for st in pre for d in walk(st) if d['kind'] == 'VarDecl']
+        offs = [d for st in pre for d in walk(st) if d['kind'] == 'VarDecl' and qt(d).replace('const ', '').strip() in
+                ('int', 'unsigned int', 'unsigned', 'size_t', 'long', 'unsigned long', 'std::size_t', 'uint32_t', 'std::streamoff')]
         if len(offs) != 1:
             raise AnalysisBroken('emitProgramBin: expected one running-offset local before the loop')
         oid = offs[0]['id']
